@@ -67,6 +67,29 @@ fn small_poly(rng: &mut Prng, n: usize) -> Vec<i32> {
     (0..n).map(|_| (0..terms).map(|_| rng.range(-2, 2)).sum::<i64>() as i32 / if terms > 16 { 3 } else { 1 }).collect()
 }
 
+/// structured sparsity: zero halves / aligned blocks, constants, monomials (the shapes on which a recursive
+/// multiplication takes its short cuts)
+fn sparsify(rng: &mut Prng, v: &mut [i32]) {
+    let n = v.len();
+    match rng.below(10) {
+        0 => v[n / 2..].iter_mut().for_each(|x| *x = 0),
+        1 => v[..n / 2].iter_mut().for_each(|x| *x = 0),
+        2 => v[1..].iter_mut().for_each(|x| *x = 0),
+        3 => {
+            let b = (n / 4).max(1);
+            let s = (rng.below((n / b) as u64) as usize) * b;
+            v[s..s + b].iter_mut().for_each(|x| *x = 0);
+        }
+        4 => {
+            let j = rng.below(n as u64) as usize;
+            let c = v[j];
+            v.iter_mut().for_each(|x| *x = 0);
+            v[j] = if c == 0 { 1 } else { c };
+        }
+        _ => {}
+    }
+}
+
 pub fn generate(tier: &str, rng: &mut Prng) -> Vec<Case> {
     let mut ops = vec![];
     let thorough = tier == "thorough";
@@ -123,8 +146,10 @@ pub fn generate(tier: &str, rng: &mut Prng) -> Vec<Case> {
     for i in 0..cases {
         let logn = if i < 20 { 1 + (i % 10) } else { 1 + rng.below(if thorough { 10 } else { 8 }) as usize };
         let n = 1usize << logn;
-        let f = small_poly(rng, n);
+        let mut f = small_poly(rng, n);
         let mut g = small_poly(rng, n);
+        sparsify(rng, &mut f);
+        sparsify(rng, &mut g);
         if f.iter().all(|&x| x == 0) && g.iter().all(|&x| x == 0) {
             g[0] = 1;
         }
